@@ -247,7 +247,24 @@ func (a *c13Art) lieElems() int {
 	return len(a.fields)
 }
 
-func (a *c13Art) lieItems() int { return a.lieElems()*len(c13LieVars) + len(a.byz) + a.byzN }
+// c13LieVarsExtra is a second block of lie variants, enumerated AFTER the Byzantine-sender items so that
+// the item indices of the first block (used by stored regression programs) stay stable: keep only the
+// first N content octets of a primitive (a re-encoded field that keeps its recognisable prefix but is far
+// shorter than the fixed offsets a consumer slices), and halve it.
+const c13LieKeepN = 200
+
+var c13LieVarsExtra = func() []c13LieVar {
+	var out []c13LieVar
+	for _, n := range []int{3, 4, 7, 8, 9, 12, 16, 20, 31, 32, 33, 40, 64, 65, 72, 100, 104} {
+		out = append(out, c13LieVar{c13LieKeepN, n, fmt.Sprintf("keep%d", n)})
+	}
+	out = append(out, c13LieVar{c13LieKeepN, -2, "keephalf"}, c13LieVar{sim.LieGrow, 64, "grow64"}, c13LieVar{sim.LieGrow, 256, "grow256"})
+	return out
+}()
+
+func (a *c13Art) lieItems() int {
+	return a.lieElems()*len(c13LieVars) + len(a.byz) + a.byzN + a.lieElems()*len(c13LieVarsExtra)
+}
 
 // nextSibling returns the Flatten index of the next sibling of element idx (-1 if none).
 func c13NextSibling(root *sim.TLV, idx int) int {
@@ -280,7 +297,16 @@ func (a *c13Art) lie(it int) ([]byte, string) {
 			return a.byz[b].in, "byzantine:" + a.byz[b].desc
 		}
 		b -= len(a.byz)
-		if b < 0 || b >= a.byzN || a.byzAt == nil {
+		if b >= a.byzN {
+			// second block of element lies
+			x := b - a.byzN
+			nx := len(c13LieVarsExtra)
+			if x < 0 || x >= ne*nx {
+				return nil, ""
+			}
+			return a.lieVariant(x/nx, c13LieVarsExtra[x%nx])
+		}
+		if b < 0 || a.byzAt == nil {
 			return nil, ""
 		}
 		x := a.byzAt(b)
@@ -289,7 +315,11 @@ func (a *c13Art) lie(it int) ([]byte, string) {
 		}
 		return x.in, "byzantine:" + x.desc
 	}
-	el, v := it/nv, c13LieVars[it%nv]
+	return a.lieVariant(it/nv, c13LieVars[it%nv])
+}
+
+// lieVariant applies lie variant v to element / field el.
+func (a *c13Art) lieVariant(el int, v c13LieVar) ([]byte, string) {
 	desc := fmt.Sprintf("elem %d %s", el, v.name)
 	var out []byte
 	if a.root != nil {
@@ -303,8 +333,14 @@ func (a *c13Art) lie(it int) ([]byte, string) {
 		}
 		var der []byte
 		switch v.kind {
-		case c13LieKeep1, c13LieKeep2:
+		case c13LieKeep1, c13LieKeep2, c13LieKeepN:
 			keep := 1 + v.kind - c13LieKeep1
+			if v.kind == c13LieKeepN {
+				keep = v.k
+				if keep == -2 {
+					keep = len(a.root.Flatten()[el].Content) / 2
+				}
+			}
 			c := a.root.Clone()
 			t := c.Flatten()[el]
 			if t.Children != nil || t.Tag&0x20 != 0 || len(t.Content) <= keep {
@@ -324,7 +360,21 @@ func (a *c13Art) lie(it int) ([]byte, string) {
 			out = der
 		}
 	} else {
-		f := c13FieldLie(a.fields, el, v.kind, v.k)
+		kind, k := v.kind, v.k
+		if kind == c13LieKeepN {
+			if el < 0 || el >= len(a.fields) {
+				return nil, ""
+			}
+			n := len(a.fields[el])
+			if k == -2 {
+				k = n / 2
+			}
+			if k >= n {
+				return nil, ""
+			}
+			kind, k = sim.LieShrink, n-k
+		}
+		f := c13FieldLie(a.fields, el, kind, k)
 		if f == nil {
 			return nil, ""
 		}
